@@ -74,4 +74,32 @@ CHECKS = {
                 "and fault propagation",
         "assumptions": ["inputs are plain stdlib futures driven by the environment"],
     },
+    "C16": {
+        "modules": ["p_c16"],
+        "gen_lemmas": ["runner_insert_at = 0", "apply_recurses_on_tail"],
+        "rule": "seeded scenarios: f_apply with 0-4 positional x 0-3 keyword argument futures, each already done or completed later by 1-3 "
+                "environment threads in a random order, one failing input at any position (incl. the function future) or none, a function "
+                "that records its arguments (non-commutative) and may raise; x {random, sticky, PCT} schedules; monitor: one call, after all "
+                "inputs resolved, arguments in place, failure identity; non-trivial = >= 2 arguments and a preemption",
+        "assumptions": ["the currying construction is modelled as a pure function (Model/Apply.v); the flat_map/map plumbing underneath is C13's"],
+    },
+    "C17": {
+        "modules": ["p_c17"],
+        "gen_lemmas": ["proxy_table (33 entries) all in transparent form", "NoCancelFuture.cancel = False"],
+        "rule": "seeded cases: 15 binary and 19 unary/builtin/attribute operations x 19 result values of builtin types x 14 operands x "
+                "future state {resolved, failed, pending then resolved from another thread}; non-forwarded operations (bool, repr, str, ==, "
+                "hash, unknown dunder) on a pending future; timeout on a never-resolved future (virtual time); f_nocancel shielding; "
+                "monitor: same value and type, or same exception type, as the operation on the plain value; a blocked operation is a deadlock",
+        "assumptions": ["Python's operator dispatch is modelled without subclass priority of the right operand; semantics of the builtin types themselves are not modelled (sampled differentially)"],
+    },
+    "C19": {
+        "modules": ["p_c19"],
+        "gen_lemmas": ["_customize / bind / flat_bind shapes", "every with_* propagates the name", "BoundCallable carries the executor's name"],
+        "rule": "seeded paired programs: random chains (0-2 layers before bind, 0-3 after; map, flat_map, retry, throttle, timeout, "
+                "cancel_on_shutdown, poll; explicit/implicit names) over sync or the real ThreadPoolExecutor (run under the scheduler), callable "
+                "kinds {function, partial, callable object, future-returning via flat_bind}, 0-2 arguments, failing attempts; bind form vs. "
+                "submit form must give equal outcomes and invocation logs; names of the threads created by every layer compared with the "
+                "inheritance rule; non-trivial = at least one layer chained after bind",
+        "assumptions": ["executor stacks are modelled as layer lists (Model/Bind.v); behaviour of each layer is the other properties' business"],
+    },
 }
